@@ -293,6 +293,11 @@ func genC01op(t *rapid.T, op string) C01Case {
 			} else {
 				yi, _ := new(big.Int).SetString(h.GenDigits(t, "rd.y", 200), 10)
 				k := int64(len(yi.String()) + rapid.IntRange(1, 400).Draw(t, "rd.k"))
+				if rapid.IntRange(0, 3).Draw(t, "rd.long") == 0 {
+					// both factors of 30..45 words: the sizes at which a multiplication changes algorithm
+					yi, _ = new(big.Int).SetString(h.GenDigitsN(t, "rd.ylong", rapid.IntRange(560, 860).Draw(t, "rd.yn")), 10)
+					k = int64(len(yi.String()) + rapid.IntRange(560, 860).Draw(t, "rd.klong"))
+				}
 				q, r := new(big.Int).QuoRem(new(big.Int).Exp(big.NewInt(10), big.NewInt(k), nil), yi, new(big.Int))
 				if r.Sign() != 0 && rapid.Bool().Draw(t, "rd.ceil") {
 					q.Add(q, big.NewInt(1))
@@ -301,6 +306,22 @@ func genC01op(t *rapid.T, op string) C01Case {
 			}
 			xv.Exp += int64(rapid.IntRange(-30, 30).Draw(t, "rd.xe"))
 			yv.Exp += int64(rapid.IntRange(-30, 30).Draw(t, "rd.ye"))
+			if rapid.IntRange(0, 2).Draw(t, "rd.edge") == 0 {
+				// ... with the product's exponent at an end of the range: a mantissa product a hair above 0.1 (or below 1)
+				// decides between a representable value and an under- or overflow
+				target := int64(model.MaxExp)
+				if rapid.IntRange(0, 2).Draw(t, "rd.low") > 0 {
+					target = model.MinExp
+				}
+				xv.Exp = int64(rapid.IntRange(-1000, 1000).Draw(t, "rd.xe2"))
+				yv.Exp = target - xv.Exp + int64(rapid.IntRange(-1, 2).Draw(t, "rd.d"))
+				if yv.Exp > model.MaxExp {
+					yv.Exp = model.MaxExp
+				}
+				if yv.Exp < model.MinExp {
+					yv.Exp = model.MinExp
+				}
+			}
 			xv.Neg, yv.Neg = rapid.Bool().Draw(t, "rd.xneg"), rapid.Bool().Draw(t, "rd.yneg")
 			c.X = h.SpecOf(xv, h.GenPrecFor(t, "rd.xp", len(xv.Digits)), h.GenMode(t, "xm"))
 			c.Y = h.SpecOf(yv, h.GenPrecFor(t, "rd.yp", len(yv.Digits)), h.GenMode(t, "ym"))
